@@ -8,7 +8,9 @@
 //      derivatives whose 1..5 parameters mix the eight bound configurations, unconstrained parameters and a
 //      non-interval constraint: untouched function after wrapping, value = original function at the
 //      back-transformed point, feasibility of that point, chain rule (formula-agnostic: the map seen by the
-//      wrapped function is differentiated numerically), pass-through of untransformed parameters.
+//      wrapped function is differentiated numerically), pass-through of untransformed parameters.  The wrapper under
+//      test may be a copy (clone / copy constructor / assignment) and the wrapped function may live in a parameter
+//      namespace (parameters called "model.p0" ...).
 #include "vrt.h"
 
 #include <Bpp/Numeric/AbstractParametrizable.h>
@@ -489,10 +491,12 @@ public:
   size_t updates;
   bool d1on, d2on;
 
-  PolyFunction(const Poly& p, const vector<Spec>& specs) : AbstractParametrizable(""), poly(p), updates(0), d1on(true), d2on(true)
+  // ns: the parameter namespace the function lives in (AbstractParametrizable's prefix): its parameters are called
+  // ns + "p0", ns + "p1", ...  ("" = no namespace)
+  PolyFunction(const Poly& p, const vector<Spec>& specs, const string& ns = "") : AbstractParametrizable(ns), poly(p), updates(0), d1on(true), d2on(true)
   {
     for (size_t i = 0; i < specs.size(); ++i)
-      addParameter_(new Parameter("p" + str(i), specs[i].value, specs[i].constraint()));
+      addParameter_(new Parameter(ns + "p" + str(i), specs[i].value, specs[i].constraint()));
   }
   PolyFunction* clone() const override { return new PolyFunction(*this); }
 
@@ -502,9 +506,12 @@ public:
     for (size_t i = 0; i < poly.n; ++i) v[i] = getParameters()[i].getValue();
     return v;
   }
+  // a derivation variable may be named by the parameter's full name or by its name without the namespace (the library does
+  // not document which one a wrapper hands on for a function in a namespace): the test double understands both
   size_t indexOf(const string& name) const
   {
     for (size_t i = 0; i < poly.n; ++i) if (getParameters()[i].getName() == name) return i;
+    for (size_t i = 0; i < poly.n; ++i) if (getParameters()[i].getName() == getNamespace() + name) return i;
     throw Exception("PolyFunction: no parameter " + name);
   }
   void setParameters(const ParameterList& pl) override { ++updates; matchParametersValues(pl); }
@@ -578,6 +585,19 @@ Poly drawPoly(vrt::Rng& rng, const vector<Spec>& specs)
 
 string pointStr(const vector<double>& v) { return vrt::vecStr(v, 8); }
 
+// A non-empty parameter namespace for the wrapped function: the usual dotted forms, nested ones, one without separator, ones that
+// look like the parameter names themselves ("p", "p0": the parameters are then called pp0, p0p1 ...), or a random one.
+string drawNamespace(vrt::Rng& rng)
+{
+  static const vector<string> fixed = { "model.", "a.b_", "ns1.ns2.", "f_", "p", "p0", "x", "M.", "1." };
+  if (rng.chance(0.75)) return rng.pick(fixed);
+  static const string alphabet = "abcxyzPQ019._";
+  string s;
+  size_t len = 1 + rng.below(6);
+  for (size_t i = 0; i < len; ++i) s += alphabet[rng.below(alphabet.size())];
+  return s;
+}
+
 // transformed coordinate for the evaluation points, over [-30,30]
 double drawCoordinate(vrt::Rng& rng)
 {
@@ -622,12 +642,19 @@ void caseWrapper(vrt::Case& c)
     if (copyPlan[s]) planTxt += string(planTxt.empty() ? "" : ",") + routeName[copyPlan[s]] + "@stage" + str(s);
   }
   bool permuteSelection = subsetCtor && aux.chance(0.5);
-  vrt::describe(string(wname) + (subsetCtor ? ":subset-ctor" : ""), str(n) + " parameters { " + cfgs + " }" + (permuteSelection ? " ; selection in another order" : "") + (planTxt.empty() ? "" : " ; wrapper replaced by a copy: " + planTxt));
+  // The parameter namespace the wrapped function lives in (a third of the cases: a non-empty one), again from a stream of its
+  // own.  The property speaks of "the original function" without restriction: a function whose parameters are called
+  // "model.p0", ... is reparametrised like any other, the wrapper takes over its namespace and its parameter names.
+  vrt::Rng aux2(vrt::mix(vrt::mix(c.seed, vrt::hashStr("C11/wrapper/namespace")), c.index));
+  const string ns = aux2.chance(0.35) ? drawNamespace(aux2) : string();
+  const string nsCls = ns.empty() ? "" : ":namespaced-function"; // class suffix of the per-update clauses
+  auto fullName = [&](size_t i) { return ns + "p" + str(i); };
+  vrt::describe(string(wname) + (subsetCtor ? ":subset-ctor" : "") + nsCls, str(n) + " parameters { " + cfgs + " }" + (ns.empty() ? "" : " ; function in parameter namespace '" + ns + "' (parameters " + fullName(0) + " ...)") + (permuteSelection ? " ; selection in another order" : "") + (planTxt.empty() ? "" : " ; wrapper replaced by a copy: " + planTxt));
 
   Poly poly = drawPoly(rng, specs);
   shared_ptr<PolyFunction> F;
   {
-    vrt::Outcome o = vrt::capture([&] { F = make_shared<PolyFunction>(poly, specs); });
+    vrt::Outcome o = vrt::capture([&] { F = make_shared<PolyFunction>(poly, specs, ns); });
     if (!o.returned()) { vrt::counted("harness.function-construction-refused"); return; } // not this property's business
   }
   const vector<double> P0 = F->point();
@@ -646,9 +673,17 @@ void caseWrapper(vrt::Case& c)
       aux.shuffle(taken); // the selection names the parameters in another order than the function does
       foreignAt = aux.below(taken.size() + 1);
     }
+    // the name in the selection that is not a parameter of the function; for a function in a namespace it may be the name of
+    // one of its parameters *without* the namespace (the function's parameter is called ns+"p1", so "p1" is foreign to it)
+    string foreignName = "not-a-parameter-of-the-function";
+    if (!ns.empty() && aux2.chance(0.5))
+    {
+      foreignName = "p" + str(aux2.below(n));
+      for (size_t i = 0; i < n; ++i) if (foreignName == fullName(i)) foreignName = "not-a-parameter-of-the-function";
+    }
     for (size_t k = 0; k <= taken.size(); ++k)
     {
-      if (k == foreignAt) sel.addParameter(Parameter("not-a-parameter-of-the-function", 1.));
+      if (k == foreignAt) sel.addParameter(Parameter(foreignName, 1.));
       if (k < taken.size()) sel.addParameter(F->getParameters()[taken[k]]);
     }
   }
@@ -708,14 +743,14 @@ void caseWrapper(vrt::Case& c)
       {
         bool found = false;
         for (size_t i : taken)
-          if ((*wpp)[k].getName() == "p" + str(i) && find(order.begin(), order.end(), i) == order.end()) { order.push_back(i); found = true; break; }
+          if ((*wpp)[k].getName() == fullName(i) && find(order.begin(), order.end(), i) == order.end()) { order.push_back(i); found = true; break; }
         ok = found;
       }
       if (ok) taken = order;
     }
     else
-      for (size_t k = 0; ok && k < taken.size(); ++k) ok = (*wpp)[k].getName() == "p" + str(taken[k]);
-    if (!vrt::expect(ok, "wrapper.parameter-names", wname, [&] { return cfgs + ": wrapper parameters " + vrt::vecStr((*wpp).getParameterNames()); })) return;
+      for (size_t k = 0; ok && k < taken.size(); ++k) ok = (*wpp)[k].getName() == fullName(taken[k]);
+    if (!vrt::expect(ok, "wrapper.parameter-names", wname + nsCls, [&] { return cfgs + ": wrapper parameters " + vrt::vecStr((*wpp).getParameterNames()); })) return;
   }
   vector<double> X0(taken.size());
   for (size_t k = 0; k < taken.size(); ++k)
@@ -731,11 +766,15 @@ void caseWrapper(vrt::Case& c)
   for (double x : X0) if (!std::isfinite(x)) return;
 
   // helper: one update through the wrapper and all the per-update clauses
-  auto nameOf = [&](size_t k) { return "p" + str(taken[k]); };
+  auto nameOf = [&](size_t k) { return fullName(taken[k]); };          // the parameter's name: the function's, with its namespace
+  auto shortOf = [&](size_t k) { return "p" + str(taken[k]); };        // the same without the namespace
   vector<double> X = X0;            // current transformed coordinates (model)
   vector<double> expectedF = P0;    // function parameters we expect to see for parameters not (yet) updated
-  auto tparam = [&](size_t k) -> const TransformedParameter& { return dynamic_cast<const TransformedParameter&>(W->parameter(nameOf(k))); };
-  string cp;                        // class suffix of the per-update clauses once the wrapper under test is a copy ("" before)
+  // the wrapper's k-th parameter (its name was checked above and is re-checked at every copy); by position, so that nothing is
+  // assumed about how a wrapper in a namespace wants its parameters to be named in parameter()
+  auto tparam = [&](size_t k) -> const TransformedParameter& { return dynamic_cast<const TransformedParameter&>((*wpp)[k]); };
+  string cp = nsCls;                // class suffix of the per-update clauses: the function lives in a namespace; (later) the wrapper under test is a copy
+  if (!ns.empty()) vrt::cover(string("namespace:") + wname + (subsetCtor ? ":selection" : ":all-parameters"));
 
   auto update = [&](const vector<size_t>& which, const vector<double>& vals, bool viaF, const string& what) -> bool {
       ParameterList pl;
@@ -766,6 +805,7 @@ void caseWrapper(vrt::Case& c)
       }
       if (!vrt::expect(o.returned(), "wrapper.accepts-any-real-point", cls + cp, [&] { return cfgs + ": " + what + " " + txt + " " + o.text(); }))
         return false;
+      if (!ns.empty()) vrt::counted("wrapper.namespaced-function-updates");
       for (size_t t = 0; t < which.size(); ++t) X[which[t]] = vals[t];
       // the wrapper's own coordinates hold what was set
       for (size_t k = 0; k < taken.size(); ++k)
@@ -782,6 +822,7 @@ void caseWrapper(vrt::Case& c)
             });
         string side = fabs(vals[t]) >= 18 ? (vals[t] < 0 ? ":far-negative" : ":far-positive") : "";
         vrt::cover("update:" + cc + side);
+        if (!ns.empty()) vrt::cover("update:namespaced-function:" + cc);
         vrt::expect(specs[i].feasible(now[i]), "wrapper.backtransformed-feasible", cc + side + cp, [&] {
               return cfgs + ": after " + txt + " function parameter p" + str(i) + "=" + str(now[i]) + " violates " + specs[i].text();
             });
@@ -811,6 +852,16 @@ void caseWrapper(vrt::Case& c)
 
   vector<size_t> all(taken.size());
   for (size_t k = 0; k < all.size(); ++k) all[k] = k;
+
+  // Derivation variables.  Without a namespace a variable has one name.  For a function in a namespace the library does not say
+  // whether a wrapper wants the variable with or without the namespace: the name without it is tried first (what parameter() and
+  // getParameterValue() of a Parametrizable take), the full name when the wrapper refuses that one; only a refusal of both is judged.
+  auto withVariables = [&](size_t k, size_t l, const function<void(const string&, const string&)>& call) -> vrt::Outcome {
+      vrt::Outcome o = vrt::capture([&] { call(shortOf(k), shortOf(l)); });
+      if (o.returned() || ns.empty()) return o;
+      vrt::Outcome o2 = vrt::capture([&] { call(nameOf(k), nameOf(l)); });
+      return o2.returned() ? o2 : o;
+    };
 
   // ---- replacing the wrapper by a copy of itself (clone through the base class, copy constructor of its own class,
   //      assignment onto a wrapper of its class built around another function).  A copy of a reparametrised function is a
@@ -854,7 +905,8 @@ void caseWrapper(vrt::Case& c)
             targetBuilt = false;
             try
             {
-              G = make_shared<PolyFunction>(poly2, specs2);
+              // ... in the same namespace or in another one (assignment replaces the target's whole state, names included)
+              G = make_shared<PolyFunction>(poly2, specs2, aux2.chance(0.5) ? ns : aux2.chance(0.5) ? drawNamespace(aux2) : string());
               for (size_t i = n2; i-- > 0;) if (aux.chance(0.5)) sel2.addParameter(G->getParameters()[i]);
               if (W2) { nW2 = sub2 ? make_shared<ReparametrizationDerivableSecondOrderWrapper>(G, sel2, false) : make_shared<ReparametrizationDerivableSecondOrderWrapper>(G, false); nW1 = nW2; nW = nW2; }
               else if (W1) { nW1 = sub2 ? make_shared<ReparametrizationDerivableFirstOrderWrapper>(G, sel2, false) : make_shared<ReparametrizationDerivableFirstOrderWrapper>(G, false); nW = nW1; }
@@ -910,7 +962,7 @@ void caseWrapper(vrt::Case& c)
       W1 = nW1;
       W2 = nW2;
       wpp = &W->getParameters();
-      cp = ":copied-wrapper";
+      cp = nsCls + ":copied-wrapper";
       return true;
     };
   auto stage = [&](int s) -> bool { return copyPlan[s] == 0 || replaceByCopy(copyPlan[s]); };
@@ -977,7 +1029,7 @@ void caseWrapper(vrt::Case& c)
       double Fi = poly.d1(now, i), Fii = poly.d2(now, i, i);
       vrt::Outcome o;
       double got1 = 0;
-      o = vrt::capture([&] { got1 = W1->getFirstOrderDerivative(nameOf(k)); });
+      o = withVariables(k, k, [&](const string& v, const string&) { got1 = W1->getFirstOrderDerivative(v); });
       if (vrt::expect(o.returned(), "wrapper.chain-rule-1", cc + ":raised" + cp, [&] { return cfgs + ": getFirstOrderDerivative(" + nameOf(k) + ") " + o.text(); }))
       {
         double want = Fi * fds[k].d1;
@@ -991,7 +1043,7 @@ void caseWrapper(vrt::Case& c)
       }
       if (!W2) continue;
       double got2 = 0;
-      o = vrt::capture([&] { got2 = W2->getSecondOrderDerivative(nameOf(k)); });
+      o = withVariables(k, k, [&](const string& v, const string&) { got2 = W2->getSecondOrderDerivative(v); });
       if (vrt::expect(o.returned(), "wrapper.chain-rule-2", cc + ":raised" + cp, [&] { return cfgs + ": getSecondOrderDerivative(" + nameOf(k) + ") " + o.text(); }))
       {
         double want = Fii * fds[k].d1 * fds[k].d1 + Fi * fds[k].d2;
@@ -1009,7 +1061,7 @@ void caseWrapper(vrt::Case& c)
         size_t j = taken[l];
         double Fij = poly.d2(now, i, j);
         double gotx = 0;
-        o = vrt::capture([&] { gotx = W2->getSecondOrderDerivative(nameOf(k), nameOf(l)); });
+        o = withVariables(k, l, [&](const string& v1, const string& v2) { gotx = W2->getSecondOrderDerivative(v1, v2); });
         if (!vrt::expect(o.returned(), "wrapper.chain-rule-cross", cc + ":raised" + cp, [&] { return cfgs + ": getSecondOrderDerivative(" + nameOf(k) + "," + nameOf(l) + ") " + o.text(); })) continue;
         double want = Fij * fds[k].d1 * fds[l].d1;
         double allow = fabs(Fij) * (fabs(fds[k].d1) * fds[l].r1 + fabs(fds[l].d1) * fds[k].r1 + fds[k].r1 * fds[l].r1) + RELTOL * fabs(want);
@@ -1083,7 +1135,15 @@ void caseWrapSweep(vrt::Case& c)
     values.swap(v2);
   }
   string cc = configName(cfg);
-  vrt::describe(cc, base.text() + " wrapped at " + str(values.size()) + " sorted values");
+  // every third block of eight cases: the functions live in a parameter namespace (own stream: the values above are unchanged)
+  string ns;
+  if ((c.index / 8) % 3 == 2)
+  {
+    vrt::Rng aux2(vrt::mix(vrt::mix(c.seed, vrt::hashStr("C11/wrap-sweep/namespace")), c.index));
+    ns = drawNamespace(aux2);
+    vrt::cover("wrap-sweep:namespaced-function:" + cc);
+  }
+  vrt::describe(cc, base.text() + " wrapped at " + str(values.size()) + " sorted values" + (ns.empty() ? "" : " ; functions in parameter namespace '" + ns + "'"));
   vector<double> xs;
   for (double v : values)
   {
@@ -1092,7 +1152,7 @@ void caseWrapSweep(vrt::Case& c)
     vector<Spec> specs(1, s);
     Poly poly = drawPoly(rng, specs);
     shared_ptr<PolyFunction> F;
-    vrt::Outcome o0 = vrt::capture([&] { F = make_shared<PolyFunction>(poly, specs); });
+    vrt::Outcome o0 = vrt::capture([&] { F = make_shared<PolyFunction>(poly, specs, ns); });
     if (!o0.returned()) { vrt::counted("harness.function-construction-refused"); return; }
     shared_ptr<ReparametrizationFunctionWrapper> W;
     vrt::Outcome o = vrt::capture([&] { W = make_shared<ReparametrizationFunctionWrapper>(F, false); });
@@ -1146,7 +1206,8 @@ int main(int argc, char** argv)
       "near 0 included) plus a 17 point sweep of one coordinate; a selection given to the second constructor is in another order than the function's in half of those cases; "
       "at each of four stages of the history (after wrapping, after the come-back, after the third point, before the sweep) the wrapper is replaced with probability 0.15 by a copy of itself "
       "(clone() through the base class, copy constructor, assignment onto a wrapper of the same class built around another function) and the history goes on through the copy "
-      "(decisions from a separate stream, the histories themselves are unchanged). wrap-sweep: one configuration, sorted initial values, a fresh wrapper each. "
+      "(decisions from a separate stream, the histories themselves are unchanged); in 35% of the cases (third stream) the wrapped function lives in a non-empty parameter namespace "
+      "(its parameters are called model.p0, a.b_p1, pp0 ...; per-update classes then carry ':namespaced-function'), and the foreign name of a selection may then be a parameter's name without the namespace. wrap-sweep: one configuration, sorted initial values, a fresh wrapper each (every third block of eight cases: functions in a namespace). "
       "A class key = (transform kind or bound configuration, region: near-lower/near-upper/interior, log/linear part, centre/tail, value-at-bound, far-negative/far-positive coordinate, "
       "which derivative); every key involves a real conversion or wrapper update.";
   meta.assumptions = {
@@ -1157,6 +1218,9 @@ int main(int argc, char** argv)
     "no finite difference is taken across the junction of the two pieces of a half-line map (coordinate within 0.0202 of 0)",
     "the wrapper is driven through f() and setParameters() (the update entry points it defines); the chain rule is judged against F'(p) and numerical derivatives of the map the wrapped function actually sees, not against a formula",
     "an interval constraint with two infinite bounds is outside the eight configurations and is not generated",
+    "the original function may live in any parameter namespace (prefix of its parameter names); the wrapper's parameters carry the function's full parameter names, as without a namespace; "
+    "a derivation variable of a wrapper around a namespaced function is named without the namespace, or with it if the wrapper refuses that (the test double understands both); "
+    "the wrapper's transformed parameters are read by position, never through parameter(name)",
     "a copy (clone, copy constructor, assignment) of a wrapper is a reparametrised function of the same original function at the same transformed point: same parameter names and "
     "coordinates, and every per-update clause applies to it; the original is not used any more once it has been copied (both share the function); the order of the wrapper's parameters "
     "for a selection given in another order than the function's is not documented, any order is accepted",
@@ -1164,6 +1228,7 @@ int main(int argc, char** argv)
   meta.requiredClauses = { "transform.roundtrip", "transform.strictly-monotone", "transform.derivative1", "transform.derivative2", "transform.inverse-monotone",
                            "wrapper.untouched-after-wrapping", "wrapper.accepts-any-real-point", "wrapper.function-at-backtransformed-point", "wrapper.backtransformed-feasible",
                            "wrapper.value", "wrapper.chain-rule-1", "wrapper.chain-rule-2", "wrapper.chain-rule-cross", "wrapper.passthrough", "wrapper.passthrough-derivative",
-                           "wrapper.roundtrip", "wrapper.strictly-monotone", "wrapper.monotone", "wrapper.copy-keeps-coordinates" };
+                           "wrapper.roundtrip", "wrapper.strictly-monotone", "wrapper.monotone", "wrapper.copy-keeps-coordinates",
+                           "wrapper.namespaced-function-updates" };
   return vrt::run(argc, argv, "C11", groups, meta);
 }
